@@ -59,6 +59,7 @@ def _dump(payload, sub):
             fd = {'name': f['name'], 'type': f['type']}
             if f.get('outputFormat'):
                 fd['outputFormat'] = f['outputFormat']
+            fd.update(f.get('lexical') or {})
             fields.append(fd)
         sch = {'fields': fields}
         if t.get('pk'):
@@ -283,7 +284,7 @@ class C03(Prop):
                    'custom temporal formats are combined only with years >= 1000 (platform strftime does not pad %Y)', 'JSON numbers are compared at double precision, CSV numbers as Decimals',
                    'zone-aware datetimes are outside the csv/json temporal formats and are not generated']
     REAL_VS_STUB = {'real': ['dataflows dumpers + load, tabulator, tableschema, datapackage, zipfile, the file system'], 'stub': ['process environment (TZ) of the verifying process']}
-    PROBES = ['json-format', 'zip-target', 'filehash-in-path', 'temporal-format-property', 'non-alphabetical-fields', 'row-key-order-differs', 'year-below-1000', 'newline-in-cell',
+    PROBES = ['incoming-lexical-properties', 'json-format', 'zip-target', 'filehash-in-path', 'temporal-format-property', 'non-alphabetical-fields', 'row-key-order-differs', 'year-below-1000', 'newline-in-cell',
               'non-bmp-unicode', 'high-precision-decimal', 'primary-key', 'padded-string', 'multi-resource', 'rows-edited-after-the-dumper']
     TIERS = {'quick': dict(runs=700, wall=100, run_wall=300),
              'thorough': dict(runs=25000, wall=1700, run_wall=600)}
@@ -308,6 +309,13 @@ class C03(Prop):
                         f['outputFormat'] = '%d.%m.%Y %H:%M:%S'
                     if f['type'] == 'time':
                         f['outputFormat'] = '%H.%M.%S'
+            if rng.random() < 0.25:
+                # the incoming descriptor says how its *source* spelled the values; the written one must say how the dumper did
+                for f in fields:
+                    lex = {'boolean': {'trueValues': ['yes'], 'falseValues': ['no']}, 'number': {'decimalChar': ',', 'groupChar': '.'},
+                           'date': {'format': '%d/%m/%Y'}, 'datetime': {'format': '%d.%m.%Y %H:%M'}, 'time': {'format': '%H.%M'}}.get(f['type'])
+                    if lex and rng.random() < 0.7:
+                        f['lexical'] = lex
             n = rng.choice([0, 1, 2, 3, 8])
             rows = []
             for r in range(n):
@@ -387,6 +395,8 @@ class C03(Prop):
         opts = sc.get('opts') or {}
         if opts.get('format') == 'json':
             ctx.probe('json-format')
+        if any(f.get('lexical') for t in sc['tables'] for f in t['fields']):
+            ctx.probe('incoming-lexical-properties')
         if sc.get('target') == 'zip':
             ctx.probe('zip-target')
         if opts.get('add_filehash_to_path'):
